@@ -790,6 +790,51 @@ func runC16(c *eng.Ctx) {
 	})
 
 	// ---- 7. line protocol: the shared row builder starts every line empty -----------------------------------------------------------
+	// ---- 6b. a failed shard/family write of a batch is reported: the error the batch write returns is sticky -----------------------
+	c.Rule("ERRFLOW", "replica.databaseChannel.Write{a failed family write is not forgotten}", func() {
+		f := c.Fn("replica.databaseChannel.Write")
+		ws := c.Some(f, invokeOn("", "Write"), "familyChannel.Write(ctx, rows)")
+		carried, lost := lostLoopErrors(p, f)
+		// the write's error must take part in the returned error at all
+		for i, w := range ws {
+			reach := false
+			// followed through the results of the unexported helpers the write may sit in
+			cur := w.Instr.(ssa.Value)
+			for d := 0; d < 4 && !reach; d++ {
+				g := cur.(ssa.Instruction).Parent()
+				hit := false
+				for _, b := range g.Blocks {
+					for _, in := range b.Instrs {
+						if r, ok := in.(*ssa.Return); ok && len(r.Results) == 1 && eng.DependsOn(r.Results[0], func(x ssa.Value) bool { return x == cur }) {
+							hit = true
+						}
+					}
+				}
+				if !hit {
+					break
+				}
+				if g == f {
+					reach = true
+					break
+				}
+				top := eng.TopOf(f, eng.Site{Instr: cur.(ssa.Instruction)})
+				tv, isV := top.(ssa.Value)
+				if top == nil || !isV || top.Parent() != f {
+					break
+				}
+				cur = tv
+			}
+			c.Check(reach, fmt.Sprintf("write-error-returned[%d]", i), w.Instr, f, "the error of a family write reaches the error databaseChannel.Write returns", "the result is dropped")
+		}
+		c.Check(carried > 0, "accumulates", nil, f, "the batch write accumulates its error over the shard and family loops", "no loop-carried error")
+		for i, l := range lost {
+			c.Check(false, fmt.Sprintf("sticky[%d]", i), l.At, f, "a failure recorded for one shard / family is not replaced by the outcome of a later one", l.Why)
+		}
+		if len(lost) == 0 {
+			c.Check(true, "sticky", nil, f, "a failure recorded for one shard / family is not replaced by the outcome of a later one", "")
+		}
+	})
+
 	c.Rule("RESET", "ingestion/influx.Parse{row builder per line}", func() {
 		f := c.Fn("ingestion/influx.Parse")
 		hn := c.One(f, invokeOn("", "HasNext"), "cr.HasNext()")
